@@ -210,7 +210,11 @@ func TestVerifRace_C12_concurrent(t *testing.T) {
 }
 
 // C12/closerace — RefreshRoutingTable / ForceRefresh called truly concurrently with Close (real
-// time, -race build). "Every refresh request receives an answer, also during shutdown" presupposes
+// time, -race build). On the pinned tree this unit re-detects finding #17 of DESIGN.md §6
+// (RtRefreshManager.Refresh: refcount.Go unordered against Close's refcount.Wait) under three
+// signatures: closerace/panic@rtrefresh… (crash inside Close), closerace/refresh-call-survives-close/panic
+// (panic in the caller) and closerace/race:…Close|…Refresh; it is silent with
+// notes/candidate-fixes/17-rtrefresh-close-race.diff overlaid. "Every refresh request receives an answer, also during shutdown" presupposes
 // that issuing the request while the node shuts down is safe: no panic (sync.WaitGroup misuse) and
 // no data race. Answers are awaited without a deadline (a missing answer would end as the
 // wall-clock watchdog's "inconclusive"; the virtual-time units judge that clause).
